@@ -7,6 +7,7 @@ P2: every data set of the bounded model is realised as ints, floats, quarters an
 binary fractions (objects and mappings, None and missing attributes), rendered by the real dtml-in,
 normalised to thousandths of a unit, and validated by TLC (ObsStats) against the clauses.
 """
+import collections
 import fractions
 import itertools
 import json
@@ -98,6 +99,10 @@ def render(seq, mapping, rot=0, numeric=True):
     return _t[key](seq=seq, cf=odd_order)
 
 
+Rec2 = collections.namedtuple('Rec2', 'x z')
+Rec3 = collections.namedtuple('Rec3', 'x z w')
+
+
 def observe(item):
     i, d = item
     res = []
@@ -129,6 +134,10 @@ def observe(item):
                     v = NAMES[x['v']]
                 if mapping:
                     seq.append({'x': v, 'z': v})
+                elif (i + ri) % 4 == 1:
+                    seq.append(Rec2(v, v))       # a two-field record: a tuple subclass, not a (key, value) pair
+                elif (i + ri) % 4 == 3:
+                    seq.append(Rec3(v, v, j))
                 else:
                     o = O()
                     o.x = o.z = v
